@@ -442,24 +442,27 @@ _FUNCS = [('aiuti/asyncio.py', 'BufferAsyncCalls._process_queue'), ('aiuti/async
           ('aiuti/asyncio.py', 'buffer_until_timeout'), ('aiuti/asyncio.py', 'to_async_iter')]
 _ASSUME = ['stock CPython 3.12 asyncio with pure-python Task and integer clock',
            'sync iterators handed to map() are drained by an inline executor (one legal schedule of the helper thread); '
-           'other schedules of that thread and foreign submitting threads are outside this Mode S check']
+           'other schedules of that thread belong to the Mode T cells']
+_ASSUME_T = ['foreign-thread cells (Mode T, harness/buffer_t.py): one foreign thread submits two arguments (plain call, map) after symbolic delays and '
+             '(C07) calls wait_from_anywhere(cancel=True/False) from its own loop; BufferAsyncCalls methods, ensure_aw and run_aw_threadsafe carry '
+             'scheduling points; every single pre-emption position, statement-level atomicity, VLock/executor stubs']
 META = {
-    'C03': {'explanation': 'BufferAsyncCalls from the current source on the virtual-time loop. Program shapes (plain call / await_ / map(list) / '
+    'C03': {'explanation': 'Foreign-thread part: see assumptions. BufferAsyncCalls from the current source on the virtual-time loop. Program shapes (plain call / await_ / map(list) / '
                            'map(iterator) / amap / wait) are fixed per cell; pauses, producer delays, function duration, failure bits of the '
                            'first invocations and the producer failure position are symbolic. After a long quiet linger every submitted '
                            'argument (including the prefix a failing producer yielded) must be in a successful invocation, exactly one for '
                            'loop-thread arguments, and the function only ever saw submitted arguments.',
-            'functions': _FUNCS, 'bounds': 'quick: programs of 3-4 steps (9 shapes), pauses 0..25 around timeout=10, function duration 0..25, any '
+            'functions': _FUNCS + BT.FUNCS, 'bounds': 'quick: programs of 3-4 steps (11 shapes), pauses 0..25 around timeout=10, function duration 0..25, any '
             'subset of the first 2 invocations failing, producer failure position in {none,0,1}; thorough: 5-7 steps, first 3-4 invocations',
-            'outside': 'foreign threads (Mode T, not built for this property); more than 7 steps', 'assumptions': _ASSUME},
-    'C07': {'explanation': 'Same engine with wait(cancel=True/False) awaited or running concurrently at symbolic instants: when a wait() returns, '
+            'outside': 'two foreign threads and symbolic function duration only in thorough; more than 7 steps', 'assumptions': _ASSUME + _ASSUME_T},
+    'C07': {'explanation': 'Foreign-thread part: see assumptions. Same engine with wait(cancel=True/False) awaited or running concurrently at symbolic instants: when a wait() returns, '
                            'everything submitted before it was called is in a successful invocation that has ended; every wait() returns '
                            '(idle-forever detector). Shutdown: the loop is shut down the way asyncio.run does (cancel all tasks, run until '
                            'they finish) at a symbolic instant; termination is decided by the idle-forever detector.',
-            'functions': _FUNCS + [('aiuti/asyncio.py', 'DaemonTask'), ('aiuti/asyncio.py', 'BufferAsyncCalls._waiter')],
+            'functions': _FUNCS + BT.FUNCS + [('aiuti/asyncio.py', 'DaemonTask'), ('aiuti/asyncio.py', 'BufferAsyncCalls._waiter')],
             'bounds': 'quick: 12 program shapes of 2-5 steps with 1-2 waits, pauses 0..25, duration 0..25, first 2 invocations may fail; shutdown '
             'instant 0..60 over 4 shapes; thorough: longer shapes, 3-4 failing invocations',
-            'outside': 'wait_from_anywhere from a foreign thread (Mode T)', 'assumptions': _ASSUME},
+            'outside': 'more than two foreign threads', 'assumptions': _ASSUME + _ASSUME_T},
     'C08': {'explanation': 'Same engine, immediate submissions only (plain calls, map(list)), no forced flush: invocations never overlap, never '
                            'receive an empty set; a maximal burst of arrivals each < timeout after the previous, inside an idle period, is '
                            'delivered by exactly one invocation starting timeout after the last arrival and none earlier. Exact ties between an '
